@@ -447,9 +447,8 @@ def grid_from_epsfs(epsfs, grid_xypos=None, meta=None):
 
     data_cube = np.stack(data_arrs, axis=0)
 
-    if meta is None:
-        meta = {}
-    # add required keywords to meta
+    # add required keywords to a copy of the input meta
+    meta = {} if meta is None else dict(meta)
     meta['grid_xypos'] = grid_xypos
     meta['oversampling'] = oversampling
     meta['fill_value'] = fill_value
